@@ -11,10 +11,11 @@ From PegtlV.gen Require Import Uri_gen.
 Import ListNotations.
 Local Open Scope N_scope.
 
-Ltac foldb H := repeat match type of H with
-  | context [if ?a then ?b else false] => change (if a then b else false) with (andb a b) in H
-  | context [if ?a then true else ?b] => change (if a then true else b) with (orb a b) in H
-  end.
+(* the lazy connectives of UriCert2.v *)
+Lemma land_iff (a b : bool) : (if a then b else false) = true <-> a = true /\ b = true.
+Proof. destruct a; simpl; intuition discriminate. Qed.
+Lemma lor_iff (a b : bool) : (if a then true else b) = true <-> a = true \/ b = true.
+Proof. destruct a; simpl; intuition discriminate. Qed.
 
 Lemma lift_ov G MX f1 f2 d r c v : ov (evalx G C0 MX f1 d r c) = Some v -> (f1 <= f2)%nat -> ov (evalx G C0 MX f2 d r c) = Some v.
 Proof.
@@ -165,6 +166,35 @@ Proof.
         unfold h_rep_opt. destruct (repopt_loop_nr (EV n) B Hgood d r1 T1 mx c Hk) as [c' [evs [b [E2 _]]]]. rewrite E2. eexists; reflexivity.
 Qed.
 
+(* ---------- nodes of the fragment of UriComplete.v ---------- *)
+Lemma cc2_old_sound n r K R nf : cc2_old G MX n r K = true -> re_of G MX (S n) r = Some (R, nf) ->
+  CmpE (EV (S n)) B r R K.
+Proof.
+  intros Hc Hr.
+  assert (Direct : forall K0, ccf G MX (S n) r K0 = true -> CmpE (EV (S n)) B r R K0).
+  { intros K0 Hcc. destruct (ccf_sound G MX HG (S n) r K0 R nf Hcc Hr) as [_ [Cm _]].
+    intros d c Hk M. destruct (Cm d c (proj1 Hk) M) as [c' [E M']]. exists c'. split; [|exact M'].
+    unfold EV. eapply lift_ov; [exact E | lia]. }
+  unfold cc2_old in Hc. destruct (nth_error G r) as [nd|]; [|discriminate].
+  destruct (MX r) as [[w mx]|]; [apply Direct; exact Hc|].
+  destruct (atom_re (nhead nd)) as [x|]; [apply Direct; exact Hc|].
+  rewrite Hr in Hc. apply lor_iff in Hc. destruct Hc as [Hc|Hc]; [|apply Direct; exact Hc].
+  rewrite !land_iff in Hc. destruct Hc as [[Hf Hcc] Hq].
+  pose proof (Direct _ Hcc) as Cm. pose proof (EV_snd (S n) r R nf Hr) as Sd.
+  intros d c Hk M.
+  assert (M' : matches (Cat R (fabs K)) (rest c)).
+  { apply cat_inv in M. destruct M as [a [k [E [Ha Hkk]]]]. rewrite E. apply MCat; [exact Ha|].
+    apply fabs_incl; [exact Hf | | exact Hkk]. destruct Hk as [Hb _]. rewrite E in Hb. eapply bytes_ok_app_r; eauto. }
+  destruct (Cm d c Hk M') as [c' [E M1]]. exists c'. split; [exact E|].
+  apply ov_ok in E. destruct E as [evs E]. destruct (Sd d c c' evs Hk E) as [pre [Ep Mp]].
+  assert (Hb : bytes_ok (pre ++ rest c')) by (rewrite <- Ep; exact (proj1 Hk)).
+  assert (M2 : matches (Alt K (cofabs K)) (rest c')).
+  { assert (Ml : matches (Cat R K) (pre ++ rest c')) by (rewrite <- Ep; exact M).
+    exact (quot2_sound CF R (Cat R K) _ Hq pre (rest c') (bytes_ok_app_l _ _ Hb) (bytes_ok_app_r _ _ Hb) Mp Ml). }
+  apply alt_inv in M2. destruct M2 as [M2|M2]; [exact M2|].
+  exfalso. eapply (fabs_disj K Hf (rest c')); eauto. eapply bytes_ok_app_r; eauto.
+Qed.
+
 (* ---------- the two checks ---------- *)
 Definition Cmp2 (n : nat) (r : rid) (R K : re) : Prop := CmpE (EV n) B r R K.
 Definition Fol2 (n : nat) (r : rid) (K : re) : Prop := FolE (EV n) B r (nf2_pred (nfol2 G MX n r K)).
@@ -182,7 +212,7 @@ Proof.
   - inversion Hs; subst. simpl. exact I.
   - destruct (re_of G MX n r) as [[R nf]|] eqn:Er; [|discriminate].
     destruct (subs_re (re_of G MX n) rs) as [l'|] eqn:El; [|discriminate]. inversion Hs; subst. clear Hs.
-    cbn [cc2_seq] in Hc. rewrite El in Hc. foldb Hc. apply andb_true_iff in Hc. destruct Hc as [C1 C2].
+    cbn [cc2_seq] in Hc. rewrite El in Hc. apply land_iff in Hc. destruct Hc as [C1 C2].
     simpl. split; [exact (proj1 (IHc r _ R nf C1 Er)) | apply IHrs; [reflexivity | exact C2]].
 Qed.
 
@@ -192,7 +222,7 @@ Proof.
   induction rs as [|a rs0 IHr]; intros l rl El Hc Elast; [discriminate|].
   simpl in El. destruct (re_of G MX n a) as [[Ra nfa]|] eqn:Era; [|discriminate].
   destruct (subs_re (re_of G MX n) rs0) as [l'|] eqn:El'; [|discriminate].
-  cbn [cc2_seq] in Hc. rewrite El' in Hc. foldb Hc. apply andb_true_iff in Hc. destruct Hc as [C1 C2].
+  cbn [cc2_seq] in Hc. rewrite El' in Hc. apply land_iff in Hc. destruct Hc as [C1 C2].
   destruct rs0 as [|b rs1].
   - simpl in Elast. inversion Elast; subst. simpl in El'. inversion El'; subst l'. simpl in C1. eauto.
   - apply (IHr l' rl eq_refl C2). exact Elast.
@@ -205,7 +235,7 @@ Proof.
   - inversion Hs; subst. simpl. exact I.
   - destruct (re_of G MX n r) as [[R nf]|] eqn:Er; [|discriminate].
     destruct (subs_re (re_of G MX n) rs) as [l'|] eqn:El; [|discriminate]. inversion Hs; subst. clear Hs.
-    cbn [cc2_sor] in Hc. rewrite Er, El in Hc. foldb Hc. rewrite !andb_true_iff in Hc. destruct Hc as [[[C1 N1] Q1] C2].
+    cbn [cc2_sor] in Hc. rewrite Er, El in Hc. rewrite !land_iff in Hc. destruct Hc as [[[C1 N1] Q1] C2].
     destruct (IHc r K R nf C1 Er) as [P1 F1].
     simpl. split; [exact P1|]. split; [exact (IHn r _ R nf N1 Er)|]. split; [eapply EV_snd; eauto|]. split; [|apply IHrs; [reflexivity | exact C2]].
     exists (nf2_pred (nfol2 G MX n r K)). split; [exact F1|]. apply (quot2_sem (nfol2 G MX n r K)). exact Q1.
@@ -217,9 +247,9 @@ Proof.
   induction rs as [|r rs IHrs]; intros l L Hs Hc; [exact I|].
   simpl in Hs. destruct (re_of G MX n r) as [[R nf]|] eqn:Er; [|discriminate].
   destruct (subs_re (re_of G MX n) rs) as [l'|] eqn:El; [|discriminate].
-  cbn [nr_seq] in Hc. foldb Hc. apply andb_true_iff in Hc. destruct Hc as [N1 Hc].
+  cbn [nr_seq] in Hc. apply land_iff in Hc. destruct Hc as [N1 Hc].
   cbn [SeqNR]. split; [exact (IHn r L R nf N1 Er)|].
-  foldb Hc. apply orb_true_iff in Hc. destruct Hc as [Hp|Hq].
+  apply lor_iff in Hc. destruct Hc as [Hp|Hq].
   - exists R, (fun _ => True). split; [eapply EV_snd; eauto|]. split; [intros; exact I|].
     apply SeqNR_true. eapply pure_subs; eauto. intros. eapply pure_sound; eauto.
   - rewrite Er in Hq. destruct (lq CF R L) as [Q|] eqn:Eq; [|discriminate].
@@ -245,12 +275,10 @@ Proof.
   split.
   - (* ---------------- completeness ---------------- *)
     intros r K R nf Hc Hr. change (cc2 G MX (S n) r K) with (cc2_step G MX (cc2 G MX n) (nr G MX n) n r K) in Hc.
-    unfold cc2_step in Hc. foldb Hc. apply orb_true_iff in Hc. destruct Hc as [Hold|Hc].
+    unfold cc2_step in Hc. apply lor_iff in Hc. destruct Hc as [Hold|Hc].
     { (* the fragment of UriComplete.cc, certified by ccf *)
-      foldb Hold. rewrite !andb_true_iff in Hold. destruct Hold as [[_ Hnone] Hcc].
-      destruct (ccf_sound G MX HG (S n) r K R nf Hcc Hr) as [_ [Cm _]]. split.
-      - intros d c Hk M. destruct (Cm d c (proj1 Hk) M) as [c' [E M']]. exists c'. split; [|exact M'].
-        unfold EV. eapply lift_ov; [exact E | lia].
+      rewrite !land_iff in Hold. destruct Hold as [[_ Hnone] Hcc]. split.
+      - exact (cc2_old_sound n r K R nf Hcc Hr).
       - intros d c c' evs Hk H. destruct (nfol2 G MX (S n) r K); [discriminate | exact I]. }
     cbn [re_of] in Hr. destruct (nth_error G r) as [nd|] eqn:En; [|discriminate].
     destruct (MX r) as [[w mx]|] eqn:Em; [discriminate|].
@@ -282,7 +310,7 @@ Proof.
     + (* star *)
       destruct (nsubs nd) as [|r1 [|? ?]] eqn:Ens; try discriminate.
       destruct (re_of G MX n r1) as [[R1 nf1]|] eqn:E1; [|discriminate]. simpl in Hr. inversion Hr; subst R nf.
-      cbv zeta in Hc. foldb Hc. rewrite !andb_true_iff in Hc. destruct Hc as [[[Nn C1] N1] Q1]. apply negb_true_iff in Nn.
+      cbv zeta in Hc. rewrite !land_iff in Hc. destruct Hc as [[[Nn C1] N1] Q1]. apply negb_true_iff in Nn.
       destruct (IHc r1 _ R1 nf1 C1 E1) as [P1 F1]. pose proof (IHn r1 _ R1 nf1 N1 E1) as T1.
       pose proof (EV_snd n r1 R1 nf1 E1) as S1. split.
       * intros d c Hk M. rewrite (EV_node n d r c nd En Em). unfold eval_head. rewrite Eh, Ens. cbn [eval_atom].
@@ -296,7 +324,7 @@ Proof.
     + (* plus *)
       destruct (nsubs nd) as [|r1 [|? ?]] eqn:Ens; try discriminate.
       destruct (re_of G MX n r1) as [[R1 nf1]|] eqn:E1; [|discriminate]. simpl in Hr. inversion Hr; subst R nf.
-      cbv zeta in Hc. foldb Hc. rewrite !andb_true_iff in Hc. destruct Hc as [[[Nn C1] N1] Q1]. apply negb_true_iff in Nn.
+      cbv zeta in Hc. rewrite !land_iff in Hc. destruct Hc as [[[Nn C1] N1] Q1]. apply negb_true_iff in Nn.
       destruct (IHc r1 _ R1 nf1 C1 E1) as [P1 F1]. pose proof (IHn r1 _ R1 nf1 N1 E1) as T1.
       pose proof (EV_snd n r1 R1 nf1 E1) as S1. split.
       * intros d c Hk M. rewrite (EV_node n d r c nd En Em). unfold eval_head. rewrite Eh, Ens. cbn [eval_atom].
@@ -310,7 +338,7 @@ Proof.
     + (* partial *)
       destruct (nsubs nd) as [|r1 [|? ?]] eqn:Ens; try discriminate.
       destruct (re_of G MX n r1) as [[R1 nf1]|] eqn:E1; [|discriminate]. simpl in Hr. inversion Hr; subst R nf.
-      foldb Hc. rewrite !andb_true_iff in Hc. destruct Hc as [[C1 N1] Q1].
+      rewrite !land_iff in Hc. destruct Hc as [[C1 N1] Q1].
       destruct (IHc r1 _ R1 nf1 C1 E1) as [P1 F1]. pose proof (IHn r1 _ R1 nf1 N1 E1) as T1. split.
       * intros d c Hk M. rewrite (EV_node n d r c nd En Em). unfold eval_head. rewrite Eh, Ens. cbn [eval_atom].
         apply (h_partial_cmp2 (EV n) B Hgood d r1 R1 K c _ P1 T1 (EV_snd n r1 R1 nf1 E1) F1 (quot2_sem _ _ _ _ Q1) Hk M).
@@ -318,7 +346,7 @@ Proof.
     + (* not_at *)
       destruct (nsubs nd) as [|r1 [|? ?]] eqn:Ens; try discriminate.
       destruct (re_of G MX n r1) as [[R1 nf1]|] eqn:E1; [|discriminate]. simpl in Hr. inversion Hr; subst R nf.
-      foldb Hc. rewrite !andb_true_iff in Hc. destruct Hc as [[C1 N1] Q1].
+      rewrite !land_iff in Hc. destruct Hc as [[C1 N1] Q1].
       destruct (IHc r1 _ R1 nf1 C1 E1) as [P1 _]. pose proof (IHn r1 _ R1 nf1 N1 E1) as T1. split.
       * intros d c Hk M. rewrite (EV_node n d r c nd En Em). unfold eval_head. rewrite Eh, Ens. cbn [eval_atom].
         assert (Mk : matches K (rest c)).
@@ -336,11 +364,11 @@ Proof.
       destruct (nsubs nd) as [|cnd [|m [|? ?]]] eqn:Ens; try discriminate.
       destruct (re_of G MX n cnd) as [[Rc nfc]|] eqn:Ec; [|discriminate].
       destruct (re_of G MX n m) as [[Rm [|]]|] eqn:Emm; try discriminate. inversion Hr; subst R nf.
-      foldb Hc. rewrite !andb_true_iff in Hc. destruct Hc as [[C1 C2] Hd].
+      rewrite !land_iff in Hc. destruct Hc as [[C1 C2] Hd].
       destruct (IHc cnd _ Rc nfc C1 Ec) as [P1 F1]. destruct (IHc m _ Rm true C2 Emm) as [P2 _]. split.
       * intros d c Hk M. rewrite (EV_node n d r c nd En Em). unfold eval_head. rewrite Eh, Ens. cbn [eval_atom].
         apply (h_if_must_cmp2 (EV n) B Hgood dflt d cnd m Rc Rm K c _ P1 P2 (EV_snd n cnd Rc nfc Ec) F1); [|exact Hk | exact M].
-        intros ->. foldb Hd. rewrite !andb_true_iff in Hd. destruct Hd as [N1 Q1].
+        intros ->. rewrite !land_iff in Hd. destruct Hd as [N1 Q1].
         split; [exact (IHn cnd _ Rc nfc N1 Ec) | exact (quot2_sem _ _ _ _ Q1)].
       * apply FolNone. cbn [nfol2]. rewrite En, Em, Eh. reflexivity.
     + (* must *)
@@ -352,8 +380,8 @@ Proof.
       * apply FolNone. cbn [nfol2]. rewrite En, Em, Eh. reflexivity.
   - (* ---------------- no raise ---------------- *)
     intros r L R nf Hc Hr. change (nr G MX (S n) r L) with (nr_step G MX (cc2 G MX n) (nr G MX n) n r L) in Hc.
-    unfold nr_step in Hc. foldb Hc. apply orb_true_iff in Hc. destruct Hc as [Hc|Hc].
-    { foldb Hc. apply orb_true_iff in Hc. destruct Hc as [He|Hp].
+    unfold nr_step in Hc. apply lor_iff in Hc. destruct Hc as [Hc|Hc].
+    { apply lor_iff in Hc. destruct Hc as [He|Hp].
       - intros d c Hk M. exfalso. eapply re_empty_sound; eauto.
       - eapply NrE_weaken; [eapply pure_sound; eauto | intros; exact I]. }
     cbn [re_of] in Hr. destruct (nth_error G r) as [nd|] eqn:En; [|discriminate].
@@ -374,7 +402,7 @@ Proof.
     + (* star *)
       destruct (nsubs nd) as [|r1 [|? ?]] eqn:Ens; try discriminate.
       destruct (re_of G MX n r1) as [[R1 nf1]|] eqn:E1; [|discriminate].
-      foldb Hc. apply andb_true_iff in Hc. destruct Hc as [Nn Hc]. apply negb_true_iff in Nn.
+      apply land_iff in Hc. destruct Hc as [Nn Hc]. apply negb_true_iff in Nn.
       destruct (lq CF (Star R1) L) as [X|] eqn:Eq; [|discriminate].
       pose proof (IHn r1 X R1 nf1 Hc E1) as T1. pose proof (EV_snd n r1 R1 nf1 E1) as S1.
       set (Iv := fun t : list byte => exists u, matches (Star R1) u /\ bytes_ok (u ++ t) /\ matches L (u ++ t)).
@@ -387,7 +415,7 @@ Proof.
     + (* plus *)
       destruct (nsubs nd) as [|r1 [|? ?]] eqn:Ens; try discriminate.
       destruct (re_of G MX n r1) as [[R1 nf1]|] eqn:E1; [|discriminate].
-      foldb Hc. apply andb_true_iff in Hc. destruct Hc as [Nn Hc]. apply negb_true_iff in Nn.
+      apply land_iff in Hc. destruct Hc as [Nn Hc]. apply negb_true_iff in Nn.
       destruct (lq CF (Star R1) L) as [X|] eqn:Eq; [|discriminate].
       pose proof (IHn r1 X R1 nf1 Hc E1) as T1. pose proof (EV_snd n r1 R1 nf1 E1) as S1.
       set (Iv := fun t : list byte => exists u, matches (Star R1) u /\ bytes_ok (u ++ t) /\ matches L (u ++ t)).
@@ -415,7 +443,7 @@ Proof.
       destruct (nsubs nd) as [|cnd [|m [|? ?]]] eqn:Ens; try discriminate.
       destruct (re_of G MX n cnd) as [[Rc nfc]|] eqn:Ec; [|discriminate].
       destruct (re_of G MX n m) as [[Rm [|]]|] eqn:Emm; try discriminate.
-      foldb Hc. apply andb_true_iff in Hc. destruct Hc as [N1 Hc].
+      apply land_iff in Hc. destruct Hc as [N1 Hc].
       destruct (lq CF Rc L) as [Q|] eqn:Eq; [|discriminate].
       intros d c Hk M. rewrite (EV_node n d r c nd En Em). unfold eval_head. rewrite Eh, Ens. cbn [eval_atom].
       apply (h_if_must_nr (EV n) B Hgood dflt d cnd m Rc c (matches L) (matches Q)
@@ -425,7 +453,7 @@ Proof.
       destruct (nsubs nd) as [|r1 [|? ?]] eqn:Ens; try discriminate.
       destruct (re_of G MX n r1) as [[R1 nf1]|] eqn:E1; [|discriminate].
       destruct (lq CF R1 L) as [Q|] eqn:Eq; [|discriminate].
-      foldb Hc. apply andb_true_iff in Hc. destruct Hc as [Hi C1].
+      apply land_iff in Hc. destruct Hc as [Hi C1].
       destruct (IHc r1 Q R1 nf1 C1 E1) as [P1 _].
       intros d c Hk M. rewrite (EV_node n d r c nd En Em). unfold eval_head. rewrite Eh, Ens. cbn [eval_atom].
       assert (M1 : matches (Cat R1 Q) (rest c)) by (eapply incl_auto_sound; [exact Hi | exact (proj1 Hk) | exact M]).
@@ -453,7 +481,7 @@ Lemma complete_of_cert2 t : complete_cert2 t = true ->
 Proof.
   unfold complete_cert2, uri_re. intros Hc s Hs M.
   destruct (re_of uri_table uri_mx uri_re_depth (uri_root t)) as [[R nf]|] eqn:ER; [|discriminate].
-  foldb Hc. apply andb_true_iff in Hc. destruct Hc as [Hi Hcc].
+  apply land_iff in Hc. destruct Hc as [Hi Hcc].
   assert (MR : matches R s) by (eapply incl_auto_sound; eauto).
   destruct (cc2_accepts uri_table uri_mx uri_table_wf uri_re_depth (uri_root t) R nf s Hcc ER Hs MR) as [f [c' [evs E]]].
   exists f, c', evs. exact E.
